@@ -1,7 +1,116 @@
-(* C05 — pipeline placeholder; replaced by the real statements *)
-From Gdsl.Model Require Import Base NodeOps.
-From Gdsl.Proofs Require Import NodeLemmas.
+(* C05 — Depth-first search finds a valid simple path iff one exists.
+   Model: coq/model/Search.v (`descend` with post = false, entry points search_path / search_find with kind KDfs,
+   any direction d: DOut (plain), DIn (transpose()), DAdj (undirected)). `accept` is an arbitrary pure filter;
+   PureCb covers Method::Empty, ForEach(recorder) and Filter(pure f). Statements copied from `Check` of the lemmas. *)
+From Gdsl.Model Require Import Spec Callback.
+From Gdsl.Proofs Require Import Descend.
 
-Theorem C05_placeholder_to_nil : forall (E : Type) v, to_ v (@nil (nat * E)) = [].
-Proof. exact to_nil. Qed.
-Print Assumptions C05_placeholder_to_nil.
+(* a returned path starts at the root, ends at the node carrying the target key, consists of accepted stored edges joined end to start, and visits no node twice *)
+Theorem c05_path_sound :
+  forall (K V E : Type) (keqb : K -> K -> bool),
+       KeqbSpec keqb ->
+       forall (CB : Type) (cb : CB -> heap K V E -> edge E -> CB * heap K V E * bool)
+         (accept : edge E -> bool) (vleb : V -> V -> bool) (h : heap K V E),
+       Wf h ->
+       KeysInj h ->
+       PureCb h cb accept ->
+       forall (d : dir) (root : nat),
+       root < size h ->
+       forall (c0 : CB) (fuel : nat) (t : K) (st : sst K V E CB) (p : list (edge E)),
+       keyof h root <> Some t ->
+       search_path keqb cb vleb KDfs d fuel h c0 root (Some t) false = (st, RPath p) ->
+       exists v : nat,
+         keyof h v = Some t /\
+         IsPath h d accept root p v /\
+         p <> [] /\ NoDup (map (edst (E:=E)) p) /\ ~ In root (map (edst (E:=E)) p).
+Proof. exact dfs_path_sound. Qed.
+Print Assumptions c05_path_sound.
+
+(* None is returned only if no node with the target key is reachable through accepted edges *)
+Theorem c05_path_complete :
+  forall (K V E : Type) (keqb : K -> K -> bool),
+       KeqbSpec keqb ->
+       forall (CB : Type) (cb : CB -> heap K V E -> edge E -> CB * heap K V E * bool)
+         (accept : edge E -> bool) (vleb : V -> V -> bool) (h : heap K V E),
+       Wf h ->
+       KeysInj h ->
+       PureCb h cb accept ->
+       forall (d : dir) (root : nat),
+       root < size h ->
+       forall (c0 : CB) (fuel : nat) (t : K) (st : sst K V E CB),
+       keyof h root <> Some t ->
+       search_path keqb cb vleb KDfs d fuel h c0 root (Some t) false = (st, RNone E) ->
+       forall v : nat, keyof h v = Some t -> ~ Reach h d accept root v.
+Proof. exact dfs_path_complete. Qed.
+Print Assumptions c05_path_complete.
+
+(* search() returns the target node exactly when search_path() returns a path (and that path ends there) *)
+Theorem c05_search_agrees :
+  forall (K V E : Type) (keqb : K -> K -> bool),
+       KeqbSpec keqb ->
+       forall (CB : Type) (cb : CB -> heap K V E -> edge E -> CB * heap K V E * bool)
+         (accept : edge E -> bool) (vleb : V -> V -> bool) (h : heap K V E),
+       Wf h ->
+       KeysInj h ->
+       PureCb h cb accept ->
+       forall (d : dir) (root : nat),
+       root < size h ->
+       forall (c0 : CB) (fuel : nat) (t : K),
+       keyof h root <> Some t ->
+       match snd (search_path keqb cb vleb KDfs d fuel h c0 root (Some t) false) with
+       | RNone _ => snd (search_find keqb cb vleb KDfs d fuel h c0 root (Some t)) = RNone E
+       | RPath p =>
+           exists (v : nat) (p0 : list (edge E)) (w : edge E),
+             snd (search_find keqb cb vleb KDfs d fuel h c0 root (Some t)) = RNode E v /\
+             p = p0 ++ [w] /\ edst w = v /\ keyof h v = Some t
+       | RFuel _ => snd (search_find keqb cb vleb KDfs d fuel h c0 root (Some t)) = RFuel E
+       | _ => False
+       end.
+Proof. exact dfs_find_agrees. Qed.
+Print Assumptions c05_search_agrees.
+
+(* with fuel >= fuel_bound the machines never run out of fuel: the out-of-fuel outcome excluded above cannot occur *)
+Theorem c05_terminates :
+  forall (K V E : Type) (keqb : K -> K -> bool),
+       KeqbSpec keqb ->
+       forall (CB : Type) (cb : CB -> heap K V E -> edge E -> CB * heap K V E * bool)
+         (accept : edge E -> bool) (vleb : V -> V -> bool) (h : heap K V E),
+       Wf h ->
+       KeysInj h ->
+       PureCb h cb accept ->
+       forall (d : dir) (root : nat),
+       root < size h ->
+       forall (c0 : CB) (fuel : nat) (t : option K) (cyc post : bool),
+       fuel_bound h <= fuel ->
+       snd (search_path keqb cb vleb KDfs d fuel h c0 root t cyc) <> RFuel E /\
+       snd (search_find keqb cb vleb KDfs d fuel h c0 root t) <> RFuel E /\
+       snd (order_edges keqb cb d post fuel h c0 root) <> None /\
+       snd (order_nodes keqb cb d post fuel h c0 root) <> None.
+Proof. exact dfs_terminates. Qed.
+Print Assumptions c05_terminates.
+
+(* backtracking never hits the unwrap() on an empty tree *)
+Theorem c05_no_panic :
+  forall (K V E : Type) (keqb : K -> K -> bool),
+       KeqbSpec keqb ->
+       forall (CB : Type) (cb : CB -> heap K V E -> edge E -> CB * heap K V E * bool)
+         (accept : edge E -> bool) (vleb : V -> V -> bool) (h : heap K V E),
+       Wf h ->
+       KeysInj h ->
+       PureCb h cb accept ->
+       forall (d : dir) (root : nat),
+       root < size h ->
+       forall (c0 : CB) (fuel : nat) (t : option K) (cyc : bool),
+       snd (search_path keqb cb vleb KDfs d fuel h c0 root t cyc) <> RPanic E.
+Proof. exact dfs_no_panic. Qed.
+Print Assumptions c05_no_panic.
+
+
+(* non-vacuity: a concrete graph 0->1, 0->0, 0->2, 1->3, 2->3, 2->0 ; dfs path from 0 to key 3 *)
+Example c05_nonvacuous :
+  let ops : list (op nat nat nat) :=
+    [ONew 0 0; ONew 1 0; ONew 2 0; ONew 3 0; OConnect 0 1 10; OConnect 0 0 11; OConnect 0 2 12; OConnect 1 3 13; OConnect 2 3 14; OConnect 2 0 15] in
+  let h := fst (run_d Nat.eqb ops) in
+  snd (search_path Nat.eqb (fun (c : unit) h' (_ : edge nat) => (c, h', true)) Nat.leb KDfs DOut 100 h tt 0 (Some 3) false)
+  = RPath [(0, 1, 10); (1, 3, 13)].
+Proof. vm_compute. reflexivity. Qed.
